@@ -97,7 +97,11 @@ Fixpoint chain_go (fuel:nat) (t dm:Z) (fat:list Z) (i:Z) : list Z * bool :=
   end.
 Definition dmax (s:st) : Z := Z.max (Gen.MAX_DATA_CLUSTER (ft s)) (Z.min (max_cluster s) (Gen.BAD_CLUSTER (ft s) - 1)).
 (** (clusters yielded before the generator stops, true iff it stopped at an end-of-chain mark) *)
-Definition chain (s:st) (c:Z) : list Z * bool := chain_go (length (s_fat s)) (ft s) (dmax s) (s_fat s) c.
+(** the FAT is sector-rounded and usually has more entries than the volume has clusters; those entries address no cluster
+    and are out of the follower's reach ([i > last_cluster] is refused like [i >= len(self.fat)], D38): the follower sees the
+    entries 0 .. max_cluster only.  Loop detection still counts against the length of the whole table. *)
+Definition vfat (s:st) : list Z := firstn (Z.to_nat (max_cluster s + 1)) (s_fat s).
+Definition chain (s:st) (c:Z) : list Z * bool := chain_go (length (s_fat s)) (ft s) (dmax s) (vfat s) c.
 Definition chain_all (s:st) (c:Z) : res (list Z) :=
   let '(l, ok) := chain s c in if ok then Ok l else Err EPYFAT.
 
